@@ -3,6 +3,7 @@
 package model
 
 import (
+	"encoding/base64"
 	"fmt"
 	"math"
 	"math/big"
@@ -49,6 +50,7 @@ type Defects struct {
 	NullObjZero      bool // F28: null for required nullable object runs validators on zero struct
 	MaxZeroIgnored   bool // maxLength/maxItems/minimum-style zero sentinel (not representable: harness never states 0)
 	AddPropObjLax    bool // additionalProperties with object/array schema: values are not validated
+	Uint8ArrayBase64 bool // --min-sized-ints: an array of integers within 0..255 is a []byte and accepts base64 strings
 	NamedFormat      bool // definition/root of a format string is a named struct type without methods
 	NamedArrayNoLim  bool // a definition/root of type array is a named slice type without any validator
 	EnumNullZero     bool // null for a defaulted enum-typed property runs the enum check on the zero value
@@ -185,6 +187,12 @@ func (c *evalCtx) eval(s *sg.Schema, v any, path string, pos ctxPos) {
 			if t == "integer" && kind == "number" && pos.addProp && c.d.AddPropLax {
 				return // mapstructure truncates
 			}
+			if t == "array" && kind == "string" && c.d.Uint8ArrayBase64 && isUint8Items(s) {
+				// defect model: []uint8 is []byte, encoding/json fills it from a base64 string
+				if _, err := base64.StdEncoding.DecodeString(v.(string)); err == nil {
+					return
+				}
+			}
 			if t == "integer" && kind == "number" {
 				n := v.(jsonx.Num)
 				if n.IsIntegral() && !n.PlainInt() {
@@ -203,8 +211,14 @@ func (c *evalCtx) eval(s *sg.Schema, v any, path string, pos ctxPos) {
 			c.dontcare("number-out-of-interop-range", path)
 			return
 		}
-	} else if kind == "number" {
-		if !numberInRange("number", v.(jsonx.Num)) {
+	} else {
+		if hasTypeSpecificKeywords(s) && kind != "null" {
+			// no type keyword but keywords that only speak about one JSON type: the statements are about typed
+			// positions (the tool maps an untyped schema to interface{} whatever else it says)
+			c.dontcare("untyped-schema-with-type-specific-keywords", path)
+			return
+		}
+		if kind == "number" && !numberInRange("number", v.(jsonx.Num)) {
 			c.dontcare("number-out-of-interop-range", path)
 			return
 		}
@@ -239,6 +253,37 @@ func (c *evalCtx) eval(s *sg.Schema, v any, path string, pos ctxPos) {
 	case "object":
 		c.evalObject(s, v.(jsonx.Obj), path, pos)
 	}
+}
+
+// isUint8Items: array whose items are integers with stated bounds inside 0..255 (what --min-sized-ints turns into uint8).
+func isUint8Items(s *sg.Schema) bool {
+	it := s.Items.Resolve()
+	if it == nil || it.HasEnum {
+		return false
+	}
+	t, _, ok := it.NonNullType()
+	if !ok || t != "integer" {
+		return false
+	}
+	lo, hi := math.Inf(-1), math.Inf(1)
+	if it.Min != nil {
+		lo = *it.Min
+	}
+	if f, ok := it.ExMin.(float64); ok && f+1 > lo {
+		lo = f + 1
+	}
+	if it.Max != nil {
+		hi = *it.Max
+	}
+	if f, ok := it.ExMax.(float64); ok && f-1 < hi {
+		hi = f - 1
+	}
+	return lo >= 0 && hi <= 256
+}
+
+func hasTypeSpecificKeywords(s *sg.Schema) bool {
+	return len(s.Props) > 0 || len(s.Required) > 0 || s.AddProps != nil || s.AddPropsBool != nil || s.Items != nil || s.MinItems > 0 || s.MaxItems > 0 ||
+		s.Min != nil || s.Max != nil || s.ExMin != nil || s.ExMax != nil || s.MultipleOf != nil || s.MinLen > 0 || s.MaxLen > 0 || s.Pattern != "" || s.Format != ""
 }
 
 // enumHasZero reports whether the zero value of the enum's Go type is a member (defect model EnumNullZero).
